@@ -189,11 +189,14 @@ def solve_task(task):
         signal.signal(signal.SIGALRM, _alarm)
         signal.alarm(int(timeout * 4) + 30)
         try:
-            steps = opts.get("steps") or ["z3", "split", "nlsat", "cvc5"]
+            steps = opts.get("steps") or ["z3quick", "split", "nlsat", "z3", "cvc5"]
             for step in steps:
                 ts = time.time()
                 if step == "z3":
                     st, inf = _solve_z3(text, ms)
+                    bk = "z3"
+                elif step == "z3quick":
+                    st, inf = _solve_z3(text, max(1500, ms // 8))
                     bk = "z3"
                 elif step == "nlsat":
                     try:
